@@ -23,47 +23,49 @@ Inputs == {"tgrid", "pgrid", "vgrid", "eosord", "interp", "symm", "volumes", "en
            "natoms", "table", "lattice", "mass", "vref"}
 \* (vref: the reference volume printed in the header of the static table; nothing may depend on it)
 
-VARIABLES stage, prov         \* prov: quantity name -> set of input classes
-pvars == <<stage, prov>>
+VARIABLES stage, prov,        \* prov: quantity name -> set of input classes;  stage: name of the last stage run
+          ran                 \* set of stages that have run (a stage runs once; its inputs must exist: partial order)
+pvars == <<stage, prov, ran>>
 Of(q) == prov[q]
 With(f, q, s) == [x \in (DOMAIN f) \cup {q} |-> IF x = q THEN s ELSE f[x]]
 
-PInit == stage = "start" /\ prov = [x \in {} |-> {}]
+PInit == stage = "start" /\ prov = [x \in {} |-> {}] /\ ran = {}
+Can(name, needs) == name \notin ran /\ needs \subseteq DOMAIN prov /\ stage' = name /\ ran' = ran \cup {name}
 
 \* _load: QHA grid  (v_array from the sampled volumes, NTV, volume_ratio; t_array from the temperature settings)
-Load == stage = "start" /\ stage' = "loaded"
+Load == Can("loaded", {})
         /\ prov' = With(With(With(prov, "v_array", {"volumes", "vgrid", "pgrid"}),
                               "t_array", {"tgrid"}),
                               "p_array", {"pgrid", "vgrid"})
 \* (v_array: QHA's refine_grid places the NTV volumes using the desired pressure range as well)
 \* _apply_elastic_constants_symmetry: the table is filled BEFORE anything is fitted to it
-Fill == stage = "loaded" /\ stage' = "filled"
+Fill == Can("filled", {"v_array"})
         /\ prov' = With(prov, "filled_table", {"table", "symm"})
 \* _interpolate_modes: frequencies and Grueneisen parameters on v_array
-Interp == stage = "filled" /\ stage' = "interpolated"
+Interp == Can("interpolated", {"v_array"})
         /\ prov' = With(With(prov, "freq_array", {"freq", "volumes", "interp"} \cup Of("v_array")),
                                "mode_gamma", {"freq", "volumes", "interp"} \cup Of("v_array"))
 \* QHA layer: F(T,V), P(T,V), C_V  (dependency; everything it reads)
-Qha == stage = "interpolated" /\ stage' = "qha"
+Qha == Can("qha", {"v_array", "t_array"})
         /\ LET s == {"volumes", "energy", "freq", "weights", "natoms", "eosord"} \cup Of("v_array") \cup Of("t_array") IN
            prov' = With(With(prov, "p_total", s), "c_v", s)
 \* _calculate_pressure_static
-PStatic == stage = "qha" /\ stage' = "pstatic"
+PStatic == Can("pstatic", {"v_array"})
         /\ prov' = With(prov, "p_static", {"volumes", "energy"} \cup Of("v_array"))
 \* FullThermalElasticModulus: strains, phonon part (tasks), static part, sum
-Strains == stage = "pstatic" /\ stage' = "strains"
+Strains == Can("strains", {"v_array"})
         /\ prov' = With(prov, "strains", {"lattice", "volumes"} \cup Of("v_array"))     \* volumes: the table's own volume column
-Phonon == stage = "strains" /\ stage' = "phonon"
+Phonon == Can("phonon", {"freq_array", "mode_gamma", "strains", "p_total", "p_static", "c_v"})
         /\ LET s == Of("freq_array") \cup Of("mode_gamma") \cup {"weights", "natoms"} \cup Of("t_array") \cup Of("v_array")
                     \cup Of("strains") \cup Of("p_total") \cup Of("p_static") \cup Of("c_v") IN
            prov' = With(With(prov, "phonon_iso", s), "phonon_adi", s)
-Static == stage = "phonon" /\ stage' = "static"
+Static == Can("static", {"filled_table", "v_array"})
         /\ prov' = With(prov, "static", Of("filled_table") \cup {"volumes"} \cup Of("v_array"))
-Sum == stage = "static" /\ stage' = "summed"
+Sum == Can("summed", {"static", "phonon_iso", "phonon_adi"})
         /\ prov' = With(With(prov, "modulus_iso", Of("static") \cup Of("phonon_iso")),
                                "modulus_adi", Of("static") \cup Of("phonon_adi"))
 \* _calculate_compliances, averages, velocities; pressure base
-Derived == stage = "summed" /\ stage' = "done"
+Derived == Can("done", {"modulus_adi", "modulus_iso", "p_total", "p_array"})
         /\ prov' = With(With(With(prov, "compliance", Of("modulus_adi")),
                               "velocities", Of("modulus_adi") \cup {"mass"} \cup Of("v_array")),
                               "tp_moduli", Of("modulus_adi") \cup Of("modulus_iso") \cup Of("p_total") \cup Of("p_array"))
@@ -81,7 +83,8 @@ FillFirst == Has("static") => Has("filled_table") /\ Of("filled_table") \subsete
 GammaLocal == Has("mode_gamma") => Of("mode_gamma") \cap {"tgrid", "energy", "weights", "table", "lattice"} = {}
 \* the header reference volume of the static table is documentation only
 VrefUnused == \A qn \in DOMAIN prov : "vref" \notin prov[qn]
-Completes == <>(stage = "done")
+Completes == <>("done" \in ran)
 
-Emit == stage # "done" \/ PrintT(<<"PROV", prov>>)
+Emit == "done" \notin ran \/ PrintT(<<"PROV", prov>>)
+AllStages == {"loaded", "filled", "interpolated", "qha", "pstatic", "strains", "phonon", "static", "summed", "done"}
 =============================================================================
